@@ -1,11 +1,22 @@
 """Which adapters decide which property."""
-from .cvrp import CVRP
-from .tsp import TSP
+import importlib
 
-ALL = [CVRP(), TSP()]
-for a in ALL:
+SPECS = [
+    ("cvrp", "CVRP"), ("tsp", "TSP"),
+    ("atsp", "ATSP"), ("pdp", "PDP"), ("op", "OP"), ("op", "OPBoundary"),
+    ("flp", "FLP"), ("flp", "FLPFull"), ("mcp", "MCP"), ("mcp", "MCPFull"), ("dpp", "DPP"), ("dpp", "MDPP"),
+]
+
+ALL = []
+for mod, cls in SPECS:
+    try:
+        m = importlib.import_module("harness.envs." + mod)
+    except ModuleNotFoundError:
+        continue
+    a = getattr(m, cls)()
     if not hasattr(a, "tag"):
         a.tag = a.name
+    ALL.append(a)
 
 
 def adapters_for(pid):
